@@ -110,8 +110,8 @@ def worker(args):
         done = set()
         for K in cfg.get("refute_bounds", [2, 3]):
             rcfg = dict(cfg)
-            rcfg.update({"ground": K, "unroll": K, "timeout_ms": cfg.get("refute_timeout_ms", 8000), "both": False,
-                         "stop_after_failures": 12, "cvc5": False, "fuc_budget_s": cfg.get("refute_budget_s", 60)})
+            rcfg.update({"ground": K, "unroll": K, "timeout_ms": cfg.get("refute_timeout_ms", 20000), "both": False,
+                         "stop_after_failures": 12, "cvc5": False, "fuc_budget_s": cfg.get("refute_budget_s", 120)})
             rres = verify_fuc(key, rcfg)
             if rres.error:
                 out["refutations"].append({"bound": K, "error": rres.error})
@@ -307,7 +307,7 @@ def report(prop, tier, seed, results, known, assumed, t0, verbose):
                 continue
             sat_proof = any(o["status"] == "failed" for o in obs)
             mine = [x for x in refs if x["obligation"] == name]
-            rep = next((x for x in reproduced if x["obligation"] == name), None) or (reproduced[0] if reproduced else None)
+            rep = next((x for x in reproduced if x["obligation"] == name), None)
             fn = os.path.join(ROOT, "replays", prop, (name + ".json").replace("/", "_"))
             doc = {"property": prop, "function": r["key"], "obligation": name,
                    "status": "refuted" if (sat_proof or mine) else "unknown",
